@@ -58,4 +58,59 @@ def select (itol etol : Rat) (cands : List Cand) : List Nat :=
   let kept := (cands.zipIdx.filter fun p => isFeasible itol etol p.1.gt p.1.eq).map fun p => (p.2, p.1.obj)
   (sortStable kept).map (·.1)
 
+/-! ### candidate generation of `_dual_age_cone_solution_recovery` (exact arithmetic) -/
+
+def dotL (a b : List Rat) : Rat := (List.zipWith (· * ·) a b).sum
+def vecAdd (a b : List Rat) : List Rat := List.zipWith (· + ·) a b
+def vecSmul (c : Rat) (a : List Rat) : List Rat := a.map (c * ·)
+
+/-- what the function reads: `v` (negative entries already clipped), the values of `con.mu_vars` in dict order, the
+    moment reduction array `M` (one row per exponent of the Lagrangian), the number of coordinates of a candidate -/
+structure DualIn where
+  n : Nat
+  v : List Rat
+  mus : List (Nat × List Rat)
+  M : List (List Rat)
+
+/-- `mus_exist`: the indices with a `mu` Variable and `v[i] > 0` -/
+def musExist (d : DualIn) : List (Nat × List Rat) := d.mus.filter fun p => decide (0 < d.v.getD p.1 0)
+
+/-- `raw_xs`: `mu_i / v_i` -/
+def rawXs (d : DualIn) : List (List Rat) := (musExist d).map fun p => vecSmul (1 / d.v.getD p.1 0) p.2
+
+def vInterest (d : DualIn) : List Rat := (musExist d).map fun p => d.v.getD p.1 0
+def mInterest (d : DualIn) (row : List Rat) : List Rat := (musExist d).map fun p => row.getD p.1 0
+
+/-- one row of `weights` (`none` when `v_reduced` is zero there: the row is dropped) -/
+def rowWeights (d : DualIn) (row : List Rat) : Option (List Rat) :=
+  let mi := mInterest d row
+  let vi := vInterest d
+  let vr := dotL mi vi
+  if vr = 0 then none else some (List.zipWith (fun m v => m / vr * v) mi vi)
+
+/-- `raw_xs @ w` -/
+def combo (n : Nat) (ws : List Rat) (xs : List (List Rat)) : List Rat :=
+  (List.zipWith vecSmul ws xs).foldl vecAdd (List.replicate n 0)
+
+def reducedXs (d : DualIn) : List (List Rat) :=
+  d.M.filterMap fun row => (rowWeights d row).map fun ws => combo d.n ws (rawXs d)
+
+/-- lexicographic order of columns (the order of `np.unique(..., axis=1)`) -/
+def lexLt : List Rat → List Rat → Bool
+  | [], [] => false
+  | [], _ :: _ => true
+  | _ :: _, [] => false
+  | a :: as, b :: bs => if a < b then true else if b < a then false else lexLt as bs
+
+/-- insertion into a sorted duplicate-free list -/
+def insertUnique (x : List Rat) : List (List Rat) → List (List Rat)
+  | [] => [x]
+  | y :: ys => if x = y then y :: ys else if lexLt x y then x :: y :: ys else y :: insertUnique x ys
+
+def uniqueCols (xs : List (List Rat)) : List (List Rat) := xs.foldl (fun acc x => insertUnique x acc) []
+
+/-- all candidates, in the order in which they are passed to `is_feasible` -/
+def dualAgeCands (d : DualIn) : List (List Rat) :=
+  if (musExist d).isEmpty then [] else uniqueCols (rawXs d ++ reducedXs d)
+
 end Sageopt.Solrec
